@@ -20,9 +20,9 @@ def accountingStep (pre : Snap) (t : Track) (s : Step) : Bool :=
   s.post.msgCount == msgCountOf t0 s.post.queue && s.post.byteCount == byteCountOf t0 s.post.queue
 
 /-- the queue a dispatch in this step would take -/
-def queueAtCheck (pre : Snap) (e : Ev) : List Sid :=
+def queueAtCheck (nextSid : Sid) (pre : Snap) (e : Ev) : List Sid :=
   match e with
-  | .send sid _ _ msgs => if msgs.isEmpty then pre.queue else pre.queue ++ [sid]
+  | .send sid _ _ msgs => if sid = nextSid ∧ msgs.isEmpty = false then pre.queue ++ [sid] else pre.queue
   | .cancel sid => pre.queue.filter (· ≠ sid)
   | _ => pre.queue
 
@@ -32,8 +32,8 @@ def queueAtCheck (pre : Snap) (e : Ev) : List Sid :=
     flight takes a non-empty queue; (iv) no dispatch once stopped. -/
 def dispatchStep (cfg : Cfg) (pre : Snap) (t : Track) (s : Step) : Bool :=
   let t0 := trackEv pre t s.ev
-  let q := queueAtCheck pre s.ev
-  let d := dispatched pre s
+  let q := queueAtCheck t.nextSid pre s.ev
+  let d := dispatched t.nextSid pre s
   (t0.stopped || !s.post.idle || s.post.queue.isEmpty || !thresh cfg s.post.msgCount s.post.byteCount) &&
   (!d || (match s.ev with | .tick => true | _ => thresh cfg (msgCountOf t0 q) (byteCountOf t0 q))) &&
   (match s.ev with | .tick => !(pre.idle && !pre.queue.isEmpty && !t0.stopped && pre.looper) || d | _ => true) &&
@@ -67,6 +67,14 @@ def isTransmission : Ob → Bool
   | .loadMeta .. => true
   | _ => false
 
+/-- the client's answer to the cancel of an in-flight produce is one of ClientIface's cancel outcomes:
+    still pending, failed payloads (with whatever had been answered), a KafkaError, or CancelledError -/
+def legitCancel : Option ProdRes → Bool
+  | none => true
+  | some (.failed _ _) => true
+  | some (.err k) => k.isKafka || k == .tcancelled
+  | _ => false
+
 /-- Stop: every outstanding send has fired when `stop()` returns, each with a cancellation error
     (or truthfully `ok`, when the client's answer to the cancel still carried its acknowledgement:
     C01 checks those); the looping call is stopped; nothing is transmitted in or after `stop()`. -/
@@ -74,14 +82,15 @@ def stopStep (pre : Snap) (t : Track) (s : Step) : Bool :=
   let t0 := trackEv pre t s.ev
   (!t0.stopped || s.obs.all (!isTransmission ·)) &&
   (match s.ev with
-   | .stop .. =>
-     s.post.outstanding.isEmpty && !s.post.looper && s.post.queue.isEmpty &&
-     pre.outstanding.all (· ∈ firedSids s.obs) &&
-     s.obs.all (fun o => match o with
-       | .fire _ (.err k) => k.isCancel
-       | .fire _ (.ok _) => true
-       | .fire _ _ => false
-       | _ => true)
+   | .stop _ pout _ =>
+     !effective t s.ev ||
+     (s.post.outstanding.isEmpty && !s.post.looper && s.post.queue.isEmpty &&
+      pre.outstanding.all (· ∈ firedSids s.obs) &&
+      (!legitCancel pout || s.obs.all (fun o => match o with
+        | .fire _ (.err k) => k.isCancel
+        | .fire _ (.ok _) => true
+        | .fire _ _ => false
+        | _ => true)))
    | _ => true)
 
 /-- A late cancel only detaches the caller: the batch goes on and, when it has resolved, every OTHER
